@@ -62,14 +62,31 @@ fn nn_of(name: &str) -> CommonNearestNeighbour {
         other => panic!("unknown nn index {}", other),
     }
 }
-/// records = lattice points divided by the common denominator pd (1 or a power of two: exact in binary)
-fn points<F: Float>(rows: &[Vec<i64>], pd: i64) -> Array2<F> {
+/// records = lattice points divided by the common denominator pd (1 or a power of two: exact in binary),
+/// every coordinate shifted by the case's offset (offset code `off`: 0 = none; the offset is chosen per float
+/// type so that every shifted coordinate is exactly representable: f64 1e6 / 1e9 / 2^40, f32 2^11 / 2^16 / 2^20)
+fn points<F: Float>(rows: &[Vec<i64>], inp: &Value) -> Array2<F> {
+    let pd = inp.get("pd").and_then(|x| x.as_i64()).unwrap_or(1);
+    let code = inp.get("off").and_then(|x| x.as_i64()).unwrap_or(0);
+    let is32 = std::mem::size_of::<F>() == 4;
+    let off: f64 = match (code, is32) {
+        (0, _) => 0.0,
+        (1, false) => 1e6,
+        (2, false) => 1e9,
+        (3, false) => 1099511627776.0,
+        (1, true) => 2048.0,
+        (2, true) => 65536.0,
+        (3, true) => 1048576.0,
+        _ => panic!("unknown offset code {}", code),
+    };
     let n = rows.len();
     let d = if n > 0 { rows[0].len() } else { 0 };
-    Array2::from_shape_fn((n, d), |(i, j)| F::cast(rows[i][j] as f64 / pd as f64))
-}
-fn pd_of(inp: &Value) -> i64 {
-    inp.get("pd").and_then(|x| x.as_i64()).unwrap_or(1)
+    Array2::from_shape_fn((n, d), |(i, j)| {
+        let v = F::cast(rows[i][j] as f64 / pd as f64 + off);
+        // the shifted record must be exact in F (else the case itself would be different from the specified one)
+        assert!(f(v) - off == rows[i][j] as f64 / pd as f64, "offset not exact");
+        v
+    })
 }
 fn params<F: Float>(meth: &Value, k: usize, nn: &str) -> KernelParams<F, CommonNearestNeighbour> {
     Kernel::<F>::params_with_nn(nn_of(nn))
@@ -204,7 +221,7 @@ fn kernel_case_typed<F: Float>(inp: &Value, ft: &str, nns: &[&str], all_forms: b
     let rows = imat(&inp["pts"]);
     let k = geti(inp, "k") as usize;
     let meth = &inp["meth"];
-    let x: Array2<F> = points(&rows, pd_of(inp));
+    let x: Array2<F> = points(&rows, inp);
     let rhs_rows = imat(&inp["rhs"]);
     let m = if rhs_rows.is_empty() { 0 } else { rhs_rows[0].len() };
     let rhs: Array2<F> = Array2::from_shape_fn((rhs_rows.len(), m), |(i, j)| F::cast(rhs_rows[i][j] as f64));
@@ -293,7 +310,7 @@ fn link_of(name: &str) -> Method {
 fn base_kernel<F: Float>(inp: &Value) -> Kernel<F> {
     match gets(inp, "src") {
         "pts" => {
-            let x: Array2<F> = points(&imat(&inp["pts"]), pd_of(inp));
+            let x: Array2<F> = points(&imat(&inp["pts"]), inp);
             let p = params::<F>(&inp["meth"], 0, "kd");
             p.transform(x.view())
         }
